@@ -206,7 +206,7 @@ def run_pairs(item, R):
         out["pairs"] += 1
         ref = R[(b_name, m)]
         if not O.same(rec, ref):
-            out["viol"].append({"a": a_name, "b": b_name, "mods": list(mods), "got": {k: rec[k] for k in ("k", "v", "w", "l")}, "pristine": {k: ref[k] for k in ("k", "v", "w", "l")}})
+            out["viol"].append({"a": a_name, "b": b_name, "mods": list(mods), "before": list(b_names[: out["pairs"] - 1]), "got": {k: rec[k] for k in ("k", "v", "w", "l")}, "pristine": {k: ref[k] for k in ("k", "v", "w", "l")}})
             if len(out["viol"]) > 5:
                 break
     return out
